@@ -155,6 +155,8 @@ func e1Compare(sc *e1Scenario, h *hist.Hist, col *evid.Collector, mode, ref stri
 	switch {
 	case err == nil && !strict.OK && lenient.OK:
 		col.Violation(prop+":unverified-propagation-entry:ref-protected", desc+" (a propagation entry for the reference is never verified)", rp)
+	case err == nil && !lenient.OK && prop == "C11" && strings.Contains(lenient.Reason, "delegation-rules-unmet") && h.A.PolicyInForceAt(lenient.At) != nil && len(h.A.PolicyInForceAt(lenient.At).Global) > 0:
+		col.Violation("C11:global-rule-weakens:delegation-rules-bypassed-when-any-global-rule-exists", desc+" (the policy in force declares a global rule; the unmet delegation rule is never consulted)", rp)
 	case err == nil && !lenient.OK:
 		col.Violation(fmt.Sprintf("%s:false-accept:%s:%s", prop, mode, strings.SplitN(lenient.Reason, ":", 2)[0]), desc, rp)
 	case err != nil && lenient.OK && strict.OK && h.A.AllPoliciesValid():
